@@ -207,3 +207,120 @@ func (c *Check) withdrawAddressSet(rule string) {
 	}
 	c.req(n == 1, rule, "MsgSetWithdrawAddress#store", token.NoPos, fmt.Sprintf("%d store of the withdrawal address by its message handler", n))
 }
+
+// bindOwnerGuard (C15: "every provider has one owner for life, shared by all its bindings"; the same guard as C05.6): every
+// state change of the bind message is dominated by ¬(the provider has a stored owner ∧ that owner ≠ the message's owner),
+// with the owner looked up for the message's provider — and by nothing weaker (an escape clause such as "or the owner is
+// the provider itself" lets a provider that already belongs to A create bindings owned by itself).
+func (c *Check) bindOwnerGuard(rule string) {
+	gOwner := c.getterByFamily("0x04")
+	if gOwner == nil {
+		c.undecided(rule, "getter:owner", token.NoPos, "owner getter not found")
+		return
+	}
+	n := 0
+	for _, en := range c.entries(rule) {
+		if en.Msg != "MsgBindService" {
+			continue
+		}
+		S := en.SignerTerm()
+		prov := en.Field("Provider")
+		cur := fmt.Sprintf("(res 0 (%s %s))", gOwner.Name, prov)
+		curFound := fmt.Sprintf("(res 1 (%s %s))", gOwner.Name, prov)
+		for _, e := range c.mutating(c.P.SummaryOf(en.Handler)) {
+			n++
+			g := c.closeFacts(e.Guards)
+			ok := false
+			for _, f := range g {
+				ds := f.Disjuncts()
+				if len(ds) != 2 {
+					continue
+				}
+				hasNF, hasEq := false, false
+				for _, d := range ds {
+					if d == "(! "+curFound+")" {
+						hasNF = true
+					}
+					if d == "(sdk.AccAddress.Equals "+S+" "+cur+")" || d == "(sdk.AccAddress.Equals "+cur+" "+S+")" {
+						hasEq = true
+					}
+				}
+				if hasNF && hasEq {
+					ok = true
+				}
+			}
+			if _, nf := hasFact(g, curFound, true); nf {
+				ok = true
+			}
+			if equalsFact(g, S, cur) {
+				ok = true
+			}
+			c.req(ok, rule, effConstruct(en.Msg, e)+"#one-owner", e.Pos, "dominated by ¬(provider has an owner ∧ owner ≠ the message's owner), owner looked up for the message's provider")
+		}
+	}
+	c.req(n >= 1, rule, "MsgBindService#effects", token.NoPos, fmt.Sprintf("%d state changes of the bind message", n))
+}
+
+// handlersAddNoRejection: whether a message is accepted is decided by the keeper function the property's rules are written
+// for; the message handler in front of it only hands the message's fields on and propagates the keeper's error. Every
+// rejecting exit of the handler is the failure of a keeper call (the last branch fact on the path is ¬ok of that call) — a
+// pre-check of its own (an expiry test off by one block, "the responder's binding is unavailable") turns away messages
+// the keeper would have accepted. The one rejection handlers make themselves today, binding a service reserved by a
+// module, is listed.
+func (c *Check) handlersAddNoRejection(rule string, msgs ...string) {
+	want := map[string]bool{}
+	for _, m := range msgs {
+		want[m] = true
+	}
+	n := 0
+	for _, en := range c.entries(rule) {
+		if len(want) > 0 && !want[en.Msg] {
+			continue
+		}
+		h := en.Handler
+		n++
+		var badPos token.Pos
+		bad := ""
+		for _, pa := range c.P.PathsOf(h) {
+			if pa.Exit != ExitRevert {
+				continue
+			}
+			var last *Event
+			for _, ev := range pa.Events {
+				if ev.Kind == EvFact {
+					last = ev
+				}
+			}
+			if last == nil {
+				bad, badPos = "an unconditional rejection", pa.RetPos
+				break
+			}
+			t := last.Fact.T
+			okCall := false
+			if last.Fact.Neg && t.Op == "ok" && len(t.A) == 1 {
+				if g := c.P.FuncNamed(stripConv(t.A[0]).Op); g != nil && g.pkgName() == "keeper" {
+					okCall = true
+				}
+			}
+			if !okCall && strings.Contains(t.String(), "GetModuleServiceByServiceName") {
+				okCall = true // listed: a service reserved by a module is not bound by message
+			}
+			if !okCall {
+				bad, badPos = "a rejection under "+shortTerm(&Term{Op: "fact", A: []*Term{t}}), pa.RetPos
+				if last.Fact.Neg {
+					bad = "a rejection under ¬" + shortTerm(t)
+				} else {
+					bad = "a rejection under " + shortTerm(t)
+				}
+				break
+			}
+		}
+		pos := h.Body.Pos()
+		if bad != "" {
+			pos = badPos
+		}
+		c.req(bad == "", rule, en.Msg+"#handler-adds-no-rejection", pos, "every rejecting exit of the handler is the failure of a keeper call"+condStr(bad != "", ": "+bad))
+	}
+	c.Sites += n
+	c.req(n >= 1, rule, "handlers", token.NoPos, fmt.Sprintf("%d message handlers examined", n))
+}
